@@ -51,7 +51,20 @@ def run_on_patch(patch, props, tier="quick"):
     finally:
         extract.REPO = old
         shutil.rmtree(d, ignore_errors=True)
+        drop_caches()
     return out
+
+
+def drop_caches():
+    """the per-tree memo tables (enumerated paths, canonical keys, anchors) are keyed by the fact object of one tree: a process
+    that replays many patches must let them go, or it keeps every tree's paths alive"""
+    from . import pathq, sym
+    from .rules import hs
+    pathq._cache.clear()
+    sym._canon_memo.clear()
+    hs._memo.clear()
+    import gc
+    gc.collect()
 
 
 def corpus(prop):
